@@ -862,7 +862,10 @@ class TopKRetrievalE(Entry):
       kl = draw(st.one_of(st.none(), st.lists(st.integers(1, 7), min_size=1, max_size=3, unique=True).map(sorted)))
       ms = draw(st.lists(st.sampled_from(RETRIEVAL_METRICS), min_size=1, max_size=4, unique=True))
       # the relevant ids of an example are only asked for their size and for membership: any such container will do
-      return {'k_list': kl, 'metrics': ms, 'true_as': draw(st.sampled_from(['list', 'list', 'tuple', 'set', 'frozenset', 'dict_keys']))}
+      cfg = {'k_list': kl, 'metrics': ms, 'true_as': draw(st.sampled_from(['list', 'list', 'tuple', 'set', 'frozenset', 'dict_keys']))}
+      # the metrics option as a list, a tuple or (one metric) the bare name / enum member; the result is then the bare array
+      cfg['metrics_as'] = draw(st.sampled_from(['list', 'tuple'] + (['name', 'name', 'member'] if len(ms) == 1 else [])))
+      return cfg
     return s()
 
   def row(self, cfg):
@@ -870,7 +873,14 @@ class TopKRetrievalE(Entry):
 
   def make(self, cfg):
     from ml_metrics._src.aggregates import retrieval  # pylint: disable=g-import-not-at-top
-    return retrieval.TopKRetrieval(k_list=cfg['k_list'], metrics=list(cfg['metrics']))
+    how = cfg.get('metrics_as', 'list')
+    if how == 'name':
+      ms = cfg['metrics'][0]
+    elif how == 'member':
+      ms = retrieval.RetrievalMetric(cfg['metrics'][0])
+    else:
+      ms = list(cfg['metrics']) if how == 'list' else tuple(cfg['metrics'])
+    return retrieval.TopKRetrieval(k_list=cfg['k_list'], metrics=ms)
 
   def args(self, cfg, rows):
     mk = {'list': list, 'tuple': tuple, 'set': set, 'frozenset': frozenset, 'dict_keys': lambda t: dict.fromkeys(t).keys()}[
@@ -878,6 +888,10 @@ class TopKRetrievalE(Entry):
     return ([mk(r[0]) for r in rows], [list(r[1]) for r in rows])
 
   def norm(self, cfg, r):
+    if cfg.get('metrics_as') in ('name', 'member'):
+      # one metric named directly: the result is the bare array (a mapping is normalised like the list form)
+      if not isinstance(r, dict):
+        return {cfg['metrics'][0]: tolist(r)}
     return {str(k.value if hasattr(k, 'value') else k): tolist(v) for k, v in r.items()}
 
   def ref_rows(self, cfg, rows):
